@@ -3,7 +3,7 @@ from props._common import COMMON_TB
 PROP = dict(
     title="Accepted programs never hit an internal VM fault",
     lean_module="AbraProofs.Properties.C01",
-    required_theorems=["C01_step_safe", "C01_step_post_ret", "C01_compile_safe_F0", "C01_depth_unsafe_fault"],
+    required_theorems=["C01_step_safe", "C01_step_post_ret", "C01_step_post_push", "C01_compile_safe_F0", "C01_depth_unsafe_fault"],
     harness_bin="c01",
     mismatch_is_violation=True,
     rule="pending-jump family (harness/src/bg9cov.rs, 397 programs quick / 794 thorough): a jump-carrying block `{ if c { break|continue } else { }; v }` as the operand of every construct where values wait on the operand stack or are pushed/consumed by hand (binary operators at int/float/string/bool, unary minus on int AND float, or/and, if, match scrutinee/arms, call/method/function-value arguments incl. void ones, constructors, index and field assignment forms on arrays and user Index, compound assignments, loop heads of inner loops, lambdas, array literals beyond 65535 elements) inside while / for-array / for-range, nested in `100 + { loop; acc }`: a host panic, an internal error or a printed value different from the Rust oracle is a failing input; coverage-guided families (harness/src/bg9cov.rs, Rust oracles, every program under the budgets {1000,1,2,3,7,100}; a host panic or internal error is a failing input): 40 byte-intrinsic programs (string_count_bytes / string_nth_byte by name, as a function value, in operand position and inside an array literal, on ASCII and multi-byte strings, indices in range, = len, > len, negative, i64::MIN/MAX: out of range is the documented array-out-of-bounds error after exactly the expected output); intrinsics called by name and as function values at several element types incl. array<void> (D88), channel_read/channel_write on channel<void> (D89), an error inside an intrinsic wrapper (D92); void struct field as assignment target; frames of 16383 / 16385 / 32767 slots (D90); a generic instantiated at never; the former VM type faults as hard regression programs: payload variant without arguments (D87: diagnostic), refutable literal / variant sub-patterns in let and for (D96: diagnostic), or-patterns in an un-annotated let (D97: diagnostic when ill-typed, 3/4 when well-typed), output type of a constrained type variable (D98: diagnostic), the D21 witnesses (break/continue with pending operands: block, void tuple component, nested for, call argument, `..` chain, array / struct / unary-minus / match operands, loop inside a lambda); product template: match on tuples, a struct and multi-field variants with void components in every position (trailing void, several voids), >= 2 arms where an earlier arm fails on a refutable sub-pattern, match in operand position with caller locals, expected output fixed in the harness, all six budgets; string templates: quick 90 / thorough 1500 programs with all six string comparison operators on designed pairs (equal, proper prefix either way, common prefix then smaller/greater byte, no common prefix, empty; every pair x operator at least once) as call arguments, under ==, in if conditions, under and/or, each followed in the same thread by further string operations on fresh temporaries, expected output computed byte-wise in the harness, run under all six budgets; search: quick 6x70 / thorough 6x2000 generated programs (tiers F0-F3 and two nesting streams with tasks, lambdas, loops, "
@@ -11,8 +11,8 @@ PROP = dict(
          "literals of abra_core/tests/integration/e2e_bytecode.rs extracted at run time, minus those declaring #host functions), each "
          "checker-accepted program compiled and run under every step budget in {1,2,3,7,100,1000}: a host panic, an internal(...) error "
          "kind, a checker/compiler panic = failing input (spec_fail, shrunk); tie of the VM-core model: every generated F0 program is "
-         "compiled by compileF0 and run by the model VM (`vmrun`), outcome kind + output compared with the real compiler+VM; D21 "
-         "fault witness replayed as known finding; non-trivial = vmrun cases that print or stop with an error",
+         "compiled by compileF0 and run by the model VM (`vmrun`), outcome kind + output compared with the real compiler+VM (two thirds of the F0 programs may have break/continue under pending operands); the former D21 "
+         "fault witness is a hard regression program (D21 fixed by 0c43abd); non-trivial = vmrun cases that print or stop with an error",
     nontrivial=lambda req, imp: imp.startswith("error") or not imp.endswith(" -"),
     trusted_base=COMMON_TB + [
         "VMCore (lean/AbraModel/VMCore.lean) models the instruction arms of vm.rs it covers, with a `fault` outcome wherever the Rust "
@@ -23,11 +23,11 @@ PROP = dict(
     ],
     assumptions=["the coverage-guided template families (harness/src/bg9cov.rs) use constructs outside the generator AST and Abra.Sem (interfaces, intrinsics by name, channels, namespaces, size limits, diagnostics): their oracle is written in Rust from the language reference (expected output / error kind / \"a diagnostic\"), it is not a Lean model",
                  "runs that do not terminate are outside C01_compile_safe_F0 (the reference evaluation must finish)",
-                 "cyclic values captured by tasks (D24) abort the host: owned by C08, not generated here"],
+                 "values captured by tasks are outside the generator except in the nesting streams (no cyclic captures are generated; the former host abort D24 is fixed and owned by C08)"],
     design_ref="DESIGN.md §6 C01",
     level_text="Instruction contracts for the modelled VM core (Pre i s => step does not fault), F0 corollary of the compiler-correctness "
-               "simulation (no bounded run of generated DepthSafe F0 code faults when the reference evaluation finishes), proved D21 fault "
-               "witness; broad search for internal faults over generated programs of all tiers, nesting streams and the repository corpus "
+               "simulation (no bounded run of the code compileF0 generates for an F0 program faults when the reference evaluation finishes; no DepthSafe side condition since the model follows 0c43abd), the historical D21 fault "
+               "witness as a statement about a hand-written instruction sequence; broad search for internal faults over generated programs of all tiers, nesting streams and the repository corpus "
                "under six step budgets.",
     level_note="partial: contracts cover the modelled instructions in the (top, top, top) operand form; full type soundness of the language is not "
                "proved and is covered only by the search.",
